@@ -17,18 +17,60 @@ from autofit.non_linear.grid import sensitivity as s
 from types import SimpleNamespace
 
 
+from autofit.non_linear.mock.mock_samples import MockSamples
+from autofit.non_linear.mock.mock_samples_summary import MockSamplesSummary
+from autofit.non_linear.result import Placeholder
+import autofit.non_linear.grid.grid_search as gs_mod
+
+
 class Analysis(af.Analysis):
+    """log likelihood = a function of the cell: -(sum_j u_j / (n+1)^j) where u_j is the position of grid
+    parameter j (sorted by name) inside its ORIGINAL prior, so distinct cells have distinct likelihoods."""
+
+    def __init__(self, grid=(), n=1):
+        self.grid = [(nm, float(lo), float(hi)) for nm, lo, hi in grid]
+        self.n = n
+
     def log_likelihood_function(self, instance):
-        return -1.0
+        ll = 0.0
+        for j, (nm, lo, hi) in enumerate(self.grid):
+            u = (getattr(instance, nm).centre - lo) / (hi - lo)
+            ll -= u / (self.n + 1) ** j
+        return ll
 
 
-def permuted_process(order):
+class CellSamples(MockSamples):
+    @property
+    def log_evidence(self):
+        return self.samples_info.get("log_evidence")
+
+
+class MockSearch(af.m.MockSearch):  # the class name is the config section looked up by the library
+    """MockSearch whose samples carry the analysis' likelihood at the prior medians of the cell's model."""
+
+    def perform_update(self, model, analysis, during_analysis, search_internal=None):
+        kwargs = {path: prior.value_for(0.5) for path, prior in model.path_priors_tuples}
+        ll = analysis.log_likelihood_function(model.instance_from_prior_medians())
+        return CellSamples(
+            sample_list=[af.Sample(log_likelihood=x, log_prior=0.0, weight=w, kwargs=kwargs) for x, w in ((ll - 1.0, 0.0), (ll, 1.0))],
+            samples_info={"unconverged_sample_size": 0, "log_evidence": ll - 100.0},
+            prior_means=[prior.mean for prior in sorted(model.priors, key=lambda prior: prior.id)],
+            model=model,
+        )
+
+
+def permuted_process(order, log=None, after=None):
+    """Job runner delivering results in the given order (indices may repeat: re-delivery)."""
     class Perm:
         @staticmethod
         def run_jobs(jobs, *_, **kw):
             jobs = list(jobs)
+            if log is not None:
+                log["jobs"] = jobs
             for k in order:
                 yield jobs[k].perform()
+                if after is not None:
+                    after(k)
     return Perm
 
 
@@ -36,17 +78,56 @@ def hexrows(rows):
     return [[hexf(x) for x in r] for r in rows]
 
 
-def build_model(priors):
-    """priors: list of (name, lo, hi) -> Collection of single-parameter holders."""
-    m = af.Collection()
-    objs = {}
-    for name, lo, hi in priors:
-        p = af.UniformPrior(lower_limit=lo, upper_limit=hi)
-        objs[name] = p
-    # a flat model class-free composition: collection of collections holding priors
-    model = af.Collection(**{name: af.Model(af.Gaussian, centre=objs[name], normalization=1.0, sigma=1.0)
-                             for name in objs})
-    return model, objs
+ATTRS = ("centre", "normalization", "sigma")
+
+
+def build_model(priors, extras=None):
+    """priors: list of (name, lo, hi) -> Collection of Gaussians, one grid-able UniformPrior (centre) per
+    component; `extras[name][attr]` in const | gauss | loguniform | shared | alias:<name> describes the other
+    two attributes (alias:<x> = the very prior object of component x's centre, i.e. one prior on two paths)."""
+    extras = extras or {}
+    objs = {name: af.UniformPrior(lower_limit=lo, upper_limit=hi) for name, lo, hi in priors}
+    shared = af.UniformPrior(lower_limit=0.5, upper_limit=2.5)
+    comps = {}
+    for name, _, _ in priors:
+        kw = {"centre": objs[name]}
+        for attr in ATTRS[1:]:
+            kind = extras.get(name, {}).get(attr, "const")
+            if kind == "const":
+                kw[attr] = 1.0
+            elif kind == "gauss":
+                kw[attr] = af.GaussianPrior(mean=1.0, sigma=0.25)
+            elif kind == "loguniform":
+                kw[attr] = af.LogUniformPrior(lower_limit=0.125, upper_limit=8.0)
+            elif kind == "shared":
+                kw[attr] = shared
+            elif kind.startswith("alias:"):
+                kw[attr] = objs[kind[6:]]
+            else:
+                raise ValueError(kind)
+        comps[name] = af.Model(af.Gaussian, **kw)
+    return af.Collection(**comps), objs
+
+
+def describe(mp, original, names):
+    """every (component, attribute) of a model: constants by value; priors by type, limits, the first path
+    holding the identical object (sharing structure) and whether it is the original model's object."""
+    row, first = {}, {}
+    for nm in names:
+        for attr in ATTRS:
+            v = getattr(getattr(mp, nm), attr)
+            key = "%s.%s" % (nm, attr)
+            if isinstance(v, af.Prior):
+                grp = first.setdefault(id(v), key)
+                lims = [hexf(v.lower_limit), hexf(v.upper_limit)]
+                row[key] = [type(v).__name__] + lims + [grp, v is getattr(getattr(original, nm), attr)]
+            else:
+                row[key] = ["const", hexf(v)]
+    return row
+
+
+def cell_limits(model, grid):
+    return {nm: [hexf(getattr(model, nm).centre.lower_limit), hexf(getattr(model, nm).centre.upper_limit)] for nm in grid}
 
 
 def run_case(c):
@@ -70,47 +151,35 @@ def run_case(c):
         for values in gs.make_lists(priors):
             args = gs.make_arguments(values, priors)
             out.append([[hexf(args[p].lower_limit), hexf(args[p].upper_limit)] for p in priors])
-        return {"cells": out}
+        phys = gs.make_physical_lists(priors)
+        return {"cells": out, "physical": hexrows(phys)}
+    if kind == "infinite":
+        # a grid prior without definite limits must be refused (make_arguments raises PriorException)
+        gs = GridSearch(search=af.m.MockSearch(name="x"), number_of_steps=c["n"])
+        lo, hi = unhex(c["lo"]), unhex(c["hi"])
+        if c["prior"] == "gauss":
+            prior = af.GaussianPrior(mean=0.0, sigma=1.0, lower_limit=lo, upper_limit=hi)
+        else:
+            prior = af.UniformPrior(lower_limit=0.0, upper_limit=1.0)
+            prior.lower_limit, prior.upper_limit = lo, hi
+        model = af.Collection(alpha=af.Model(af.Gaussian, centre=prior, normalization=1.0, sigma=1.0))
+        try:
+            n_models = len(list(gs.model_mappers(model, [prior])))
+            return {"raised": None, "n_models": n_models}
+        except af.exc.PriorException as e:
+            return {"raised": "PriorException"}
     if kind == "mappers":
         n = c["n"]
-        model, objs = build_model([(nm, unhex(lo), unhex(hi)) for nm, lo, hi in c["priors"]])
+        model, objs = build_model([(nm, unhex(lo), unhex(hi)) for nm, lo, hi in c["priors"]], c.get("extras"))
         gs = GridSearch(search=af.m.MockSearch(name="x"), number_of_steps=n)
         grid = [objs[nm] for nm in c["grid"]]
         mappers = list(gs.model_mappers(model, grid))
-        out = []
-        for mp in mappers:
-            row = {}
-            for nm, _, _ in c["priors"]:
-                p = getattr(mp, nm).centre
-                row[nm] = [hexf(p.lower_limit), hexf(p.upper_limit), type(p).__name__, p is objs[nm]]
-            out.append(row)
-        return {"mappers": out, "prior_count": [mp.prior_count for mp in mappers]}
+        names = [p[0] for p in c["priors"]]
+        return {"mappers": [describe(mp, model, names) for mp in mappers], "original": describe(model, model, names),
+                "prior_count": [mp.prior_count for mp in mappers], "original_prior_count": model.prior_count,
+                "sorted_names": [nm for p in model.sort_priors_alphabetically(set(grid)) for nm in c["grid"] if objs[nm] is p]}
     if kind == "fit":
-        n = c["n"]
-        model, objs = build_model([(nm, unhex(lo), unhex(hi)) for nm, lo, hi in c["priors"]])
-        search = af.m.MockSearch(name="gs%d" % c["idx"])
-        gs = GridSearch(search=search, number_of_steps=n)
-        grid = [objs[nm] for nm in c["grid"]]
-        res = gs._fit(model, Analysis(), grid, process_class=permuted_process(c["order"]))
-        samples = []
-        for sm in res.samples:
-            samples.append({nm: [hexf(getattr(sm.model, nm).centre.lower_limit), hexf(getattr(sm.model, nm).centre.upper_limit)]
-                            for nm in c["grid"]})
-        csv_rows = []
-        with open(gs.paths.output_path / "results.csv") as f:
-            lines = f.read().strip().splitlines()
-        for ln in lines[1:]:
-            parts = [x.strip() for x in ln.split(",")]
-            csv_rows.append([int(parts[0])] + [hexf(float(x)) for x in parts[1:1 + len(grid)]])
-        return {
-            "shape": list(res.shape), "no_steps": res.no_steps, "no_dimensions": res.no_dimensions,
-            "lower": hexrows(res.lower_limits_lists), "samples": samples, "csv": csv_rows,
-            "physical_lower": hexrows(res.physical_lower_limits_lists),
-            "physical_upper": hexrows(res.physical_upper_limits_lists),
-            "physical_centres": hexrows(res.physical_centres_lists),
-            "native_shape": list(res.log_likelihoods().native.shape),
-            "sorted_names": [model.name_for_prior(p).split("_")[0] for p in model.sort_priors_alphabetically(set(grid))],
-        }
+        return fit_run(c)
     if kind == "result":
         lists = [[unhex(x) for x in r] for r in c["lower"]]
         r = GridSearchResult(samples=None, lower_limits_lists=lists, grid_priors=[])
@@ -120,13 +189,16 @@ def run_case(c):
     if kind == "builder":
         total = c["total"]
         lists = [[0.0]] * total
-        b = ResultBuilder(lists=lists, grid_priors=[], paths=[None] * total)
+        b = ResultBuilder(lists=lists, grid_priors=[], paths=["path%d" % k for k in range(total)])
         for number, token in c["arrivals"]:
             b.add(JobResult(SimpleNamespace(samples_summary=token), None, number))
         out = []
         for x in b.sample_summaries:
             out.append(x if isinstance(x, int) else None)
-        return {"summaries": out}
+        res = []
+        for x in b.results:
+            res.append(None if isinstance(x, Placeholder) else [x.samples_summary, x.paths])
+        return {"summaries": out, "results": res}
     if kind == "sens_lists":
         ns = c["ns"]
         obj = object.__new__(s.Sensitivity)
@@ -145,71 +217,204 @@ def run_case(c):
         return {"numbers": [r.number for r in results]}
     if kind == "sens_run":
         return sens_run(c)
+    if kind == "sens_cells":
+        return sens_cells(c)
     raise ValueError(kind)
 
 
+def fit_run(c):
+    """A real grid search through the public GridSearch.fit() (or _fit) with the completion order steered by a
+    permuting job runner (number_of_cores == 1) or left to the real Process pool (number_of_cores > 1)."""
+    import numpy as np
+    n = c["n"]
+    pri = [(nm, unhex(lo), unhex(hi)) for nm, lo, hi in c["priors"]]
+    model, objs = build_model(pri, c.get("extras"))
+    names = sorted(c["grid"])
+    analysis = Analysis([p for nm in names for p in pri if p[0] == nm], n)
+    cores = c.get("cores", 1)
+    search = MockSearch(name="gs%d" % c["idx"])
+    gs = GridSearch(search=search, number_of_steps=n, number_of_cores=cores, result_output_interval=c.get("interval", 100))
+    grid = [objs[nm] for nm in c["grid"]]
+    builders, log, progress = [], {}, []
+
+    class Capture(ResultBuilder):
+        def __init__(self, *a, **kw):
+            super().__init__(*a, **kw)
+            builders.append(self)
+
+    def after(k):
+        # what an observer sees while the grid search is running: placeholders for cells not yet finished
+        progress.append([not isinstance(x, Placeholder) for x in builders[-1].sample_summaries])
+
+    perm = permuted_process(c["order"], log, after)
+    old_rb, old_seq = gs_mod.ResultBuilder, gs_mod.Sequential
+    gs_mod.ResultBuilder = Capture
+    try:
+        if c.get("entry", "fit") == "fit":
+            if cores == 1:
+                gs_mod.Sequential = perm
+            res = gs.fit(model, analysis, grid)
+        else:
+            res = gs._fit(model, analysis, grid, process_class=perm)
+    finally:
+        gs_mod.ResultBuilder, gs_mod.Sequential = old_rb, old_seq
+    with open(gs.paths.output_path / "results.csv") as f:
+        lines = f.read().strip().splitlines()
+    header = [x.strip() for x in lines[0].split(",")]
+    csv_rows = []
+    for ln in lines[1:]:
+        parts = [x.strip() for x in ln.split(",")]
+        csv_rows.append([int(parts[0])] + [hexf(float(x)) for x in parts[1:]])
+    lls = res.log_likelihoods()
+    b = builders[-1]
+    return {
+        "shape": list(res.shape), "no_steps": res.no_steps, "no_dimensions": res.no_dimensions,
+        "lower": hexrows(res.lower_limits_lists),
+        "samples": [cell_limits(sm.model, c["grid"]) for sm in res.samples],
+        "csv_header": header, "csv": csv_rows,
+        "physical_lower": hexrows(res.physical_lower_limits_lists),
+        "physical_upper": hexrows(res.physical_upper_limits_lists),
+        "physical_centres": hexrows(res.physical_centres_lists),
+        "native_shape": list(lls.native.shape),
+        "log_likelihoods": [hexf(x) for x in lls],
+        "native_flat": [hexf(x) for x in np.asarray(lls.native).flatten(order="C")],
+        "log_evidences": [hexf(x) for x in res.log_evidences()],
+        "fom_evidence": [hexf(x) for x in res.figure_of_merits(use_log_evidences=True, relative_to_value=1.0)],
+        "attribute_grid": {nm: [hexf(x) for x in res.attribute_grid("%s.centre" % nm)] for nm in c["grid"]},
+        "best": [i for i, sm in enumerate(res.samples) if sm is res.best_samples],
+        "builder_paths": [None if isinstance(r, Placeholder) else cell_limits(r.paths.model, c["grid"]) for r in b.results],
+        "builder_results": [None if isinstance(r, Placeholder) else hexf(r.log_likelihood) for r in b.results],
+        "job_index": [[j.index, j.number] for j in log.get("jobs", [])],
+        "job_cells": [cell_limits(j.model, c["grid"]) for j in log.get("jobs", [])],
+        "progress": progress,
+        "others_same": all(getattr(getattr(sm.model, nm), attr) is getattr(getattr(model, nm), attr)
+                           for sm in res.samples for nm, _, _ in pri for attr in ATTRS
+                           if isinstance(getattr(getattr(model, nm), attr), af.Prior)
+                           and getattr(getattr(model, nm), attr) not in grid),
+        "sorted_names": [nm for p in model.sort_priors_alphabetically(set(grid)) for nm in c["grid"] if objs[nm] is p],
+    }
+
+
 class _Sim:
+    """the 'dataset' simulated for a cell is the perturbation's parameter values"""
     def __call__(self, instance, simulate_path):
-        return 0.0
+        return {nm: float(getattr(instance.perturb, nm)) for nm in ATTRS}
 
 
-def _result(model, ll):
-    from autofit.non_linear.mock.mock_samples_summary import MockSamplesSummary
+def _encode(dataset, weights):
+    return -sum(w * dataset[nm] for nm, w in weights)
+
+
+def _result(model, ll, dataset, paths):
     summary = MockSamplesSummary(
         model=model,
         max_log_likelihood_sample=af.Sample(log_likelihood=ll, log_prior=0.0, weight=1.0,
                                             kwargs={path: 1.0 for path in model.paths}),
+        log_evidence=ll - 100.0,
     )
+    summary.c16_dataset = dict(dataset)     # travels with the summary through the library's lists
+    summary.c16_label = paths.parent.analysis_name
     return af.m.MockResult(samples_summary=summary, model=model)
 
 
 class _BaseFit:
+    def __init__(self, weights):
+        self.weights = weights
+
     def __call__(self, dataset, model, paths):
-        return _result(model, 0.0)
+        return _result(model, _encode(dataset, self.weights), dataset, paths)
 
 
 class _PerturbFit:
+    def __init__(self, weights):
+        self.weights = weights
+
     def __call__(self, dataset, model, paths):
-        return _result(model, 1.0)
+        return _result(model, 2.0 * _encode(dataset, self.weights) + 1.0, dataset, paths)
 
 
-def sens_run(c):
-    """Real Sensitivity.run() with the completion order steered by a permuting job runner."""
-    ns = c["ns"]
-    names = ["centre", "normalization", "sigma"][: len(ns)]
+def make_sensitivity(c, name):
+    """perturb priors are CREATED in the order of c["priors"] (= prior id order), whatever their attribute name"""
     kw = {"centre": 1.0, "normalization": 1.0, "sigma": 1.0}
-    for nm, (lo, hi) in zip(names, c["priors"]):
+    for nm, lo, hi in c["priors"]:
         kw[nm] = af.UniformPrior(lower_limit=unhex(lo), upper_limit=unhex(hi))
     perturb_model = af.Model(af.Gaussian, **kw)
     instance = af.ModelInstance()
     instance.gaussian = af.Gaussian()
-    sens = s.Sensitivity(
+    weights = [(nm, unhex(w)) for nm, w in c["weights"]]
+    ls = c.get("limit_scale", 1)
+    return s.Sensitivity(
         simulation_instance=instance,
         base_model=af.Collection(gaussian=af.Model(af.Gaussian, centre=af.UniformPrior(0.0, 1.0), normalization=1.0, sigma=1.0)),
         perturb_model=perturb_model,
         simulate_cls=_Sim(),
-        base_fit_cls=_BaseFit(),
-        perturb_fit_cls=_PerturbFit(),
-        paths=af.DirectoryPaths(name="sens%d" % c["idx"]),
-        number_of_steps=tuple(ns) if c["as_tuple"] else ns[0],
-        number_of_cores=1,
+        base_fit_cls=_BaseFit(weights),
+        perturb_fit_cls=_PerturbFit(weights),
+        paths=af.DirectoryPaths(name=name),
+        number_of_steps=tuple(c["ns"]) if c["as_tuple"] else c["ns"][0],
+        number_of_cores=c.get("cores", 1),
+        limit_scale=unhex(ls) if isinstance(ls, str) else ls,
     )
+
+
+def sens_run(c):
+    """Real Sensitivity.run() with the completion order steered by a permuting job runner (or real Process)."""
+    sens = make_sensitivity(c, "sens%d" % c["idx"])
+    names = [p[0] for p in c["priors"]]
+    log = {}
     old = s.Sequential
-    s.Sequential = permuted_process(c["order"])
+    s.Sequential = permuted_process(c["order"], log)
     try:
         res = sens.run()
     finally:
         s.Sequential = old
     cells = []
     for sm in res.perturb_samples:
-        cells.append([[hexf(getattr(sm.model.perturb, nm).lower_limit), hexf(getattr(sm.model.perturb, nm).upper_limit)] for nm in names])
-    rows = []
+        cells.append({nm: [hexf(getattr(sm.model.perturb, nm).lower_limit), hexf(getattr(sm.model.perturb, nm).upper_limit)] for nm in names})
     with open(sens.results_path) as f:
         lines = f.read().strip().splitlines()
+    header = [x.strip() for x in lines[0].split(",")]
+    rows = []
     for ln in lines[1:]:
-        rows.append(int(ln.split(",")[0].strip()))
-    return {"shape": list(res.shape), "n": len(res.samples), "cells": cells, "csv_index": rows,
-            "n_perturb": len(res.perturb_samples)}
+        parts = [x.strip() for x in ln.split(",")]
+        rows.append([int(parts[0])] + [None if x == "" else hexf(float(x)) for x in parts[1:]])
+    return {"shape": list(res.shape), "n": len(res.samples), "cells": cells, "n_perturb": len(res.perturb_samples),
+            "csv_header": header, "csv": rows,
+            "base_dataset": [{nm: hexf(sm.c16_dataset[nm]) for nm in names} for sm in res.samples],
+            "perturb_dataset": [{nm: hexf(sm.c16_dataset[nm]) for nm in names} for sm in res.perturb_samples],
+            "base_label": [sm.c16_label for sm in res.samples],
+            "perturb_label": [sm.c16_label for sm in res.perturb_samples],
+            "job_labels": [[j.number, j.paths.analysis_name] for j in log.get("jobs", [])],
+            "ll_base": [hexf(x) for x in res.log_likelihoods_base],
+            "ll_perturbed": [hexf(x) for x in res.log_likelihoods_perturbed],
+            "ll_diff": [hexf(x) for x in res.figure_of_merits(use_log_evidences=False)],
+            "ev_diff": [hexf(x) for x in res.figure_of_merits(use_log_evidences=True)],
+            "centres_from": {nm: [hexf(x) for x in res.perturbed_physical_centres_list_from("perturb.%s" % nm)] for nm in names},
+            "native_shape": list(res.log_likelihoods_base.native.shape)}
+
+
+class _UnitPrior:
+    """identity value_for: exposes the unit-cube limits computed by Sensitivity._perturb_models bit for bit"""
+    def value_for(self, unit, ignore_prior_limits=False):
+        return unit
+
+
+class _UnitModel:
+    def __init__(self, d):
+        self.prior_count = d
+        self.priors_ordered_by_id = [_UnitPrior() for _ in range(d)]
+
+    def with_limits(self, limits):
+        return limits
+
+
+def sens_cells(c):
+    ns = c["ns"]
+    obj = object.__new__(s.Sensitivity)
+    obj.number_of_steps = tuple(ns) if c["as_tuple"] else ns[0]
+    obj.perturb_model = _UnitModel(len(ns))
+    obj.limit_scale = unhex(c["limit_scale"]) if isinstance(c["limit_scale"], str) else c["limit_scale"]
+    return {"limits": [[[hexf(lo), hexf(hi)] for lo, hi in lim] for lim in obj._perturb_models]}
 
 
 def main():
